@@ -173,6 +173,7 @@ class Ctx:
         self.tier = tier
         self.repo = repo
         self.instances = []      # dicts: rule, key, site, ok, detail
+        self.mentions = set()    # repo-local function names that evaluated expectations rely on (see rules/leaves.py)
         self.counts = {}
         self.floors = {}
         self.notes = []
@@ -225,6 +226,13 @@ class Ctx:
             self.floors[name] = floor
             if n < floor:
                 self.bad("floor", "floor/" + name, "", "count %d fell below the confirmed floor %d: anchors of this rule were lost" % (n, floor))
+
+    def mention(self, *texts):
+        """record the function names an evaluated expectation relies on (skipped while an instance filter excludes the rule)"""
+        import re
+        rx = re.compile(r"([A-Za-z_][A-Za-z0-9_]*::[A-Za-z_][A-Za-z0-9_#]*)(?:<[^>()]*>)?(?=[(,)])")
+        for t in texts:
+            self.mentions.update(rx.findall(t))
 
     def note(self, s):
         self.notes.append(s)
